@@ -172,7 +172,7 @@ def gauss2d(yy, xx, x0, y0, amp, sx, sy, theta):
 
 
 def make_scene(rng, *, flavour='general', margin=MARGIN, integer=False, nonneg=False,
-               nsrc=None, core=None, max_sigma=2.6, nonfinite=False, round_sources=False, hostile=False, elongated=None):
+               nsrc=None, core=None, max_sigma=2.6, nonfinite=False, round_sources=False, hostile=False, elongated=None, edge=7.0, scale=1.0):
     """Random asymmetric scene.
 
     flavour: 'general' (3-8 elliptical Gaussians, some close pairs), 'stars' (round-ish, compact,
@@ -203,7 +203,6 @@ def make_scene(rng, *, flavour='general', margin=MARGIN, integer=False, nonneg=F
                 'single': 1}[flavour]
     sigma_n = float(rng.uniform(0.4, 1.5))
     srcs = []
-    edge = 7.0
     tries = 0
     while len(srcs) < nsrc and tries < 400:
         tries += 1
@@ -305,9 +304,32 @@ def make_scene(rng, *, flavour='general', margin=MARGIN, integer=False, nonneg=F
         'src_theta': Theta(np.array([s[5] for s in srcs])),
         'sigma': sigma_n, 'offset': offset, 'margin': margin, 'nlabels': int(segm.max()),
         'amp': float(np.nanmax(np.abs(np.where(np.isfinite(data), data, 0.0)))),
-        'opts': {},
+        'opts': {}, 'scale': 1.0,
     }
+    if scale != 1.0:
+        apply_scale(scene, scale)
     return scene
+
+
+def draw_scale(rng):
+    """Overall magnitude of the data and of every value-like input: 1 for about half of the cases, else a power of two
+    2**-60..2**40 or a decimal power 1e-20..1e10 (hidden absolute tolerances, float32 intermediates, `close to 0`
+    tests are the target)."""
+    r = rng.random()
+    if r < 0.5:
+        return 1.0
+    if r < 0.75:
+        return float(2.0 ** int(rng.integers(-60, 41)))
+    return float(10.0 ** int(rng.integers(-20, 11)))
+
+
+def apply_scale(scene, scale):
+    for k in ('data', 'error', 'bkg', 'conv', 'data2', 'bdata'):
+        scene[k] = Frame(scene[k].v * scale, scene[k].fill)
+    for k in ('sigma', 'offset', 'amp', 'bkg_scalar', 'err_scalar'):
+        scene[k] = scene[k] * scale
+    scene['src_amp'] = [a * scale for a in scene['src_amp']]
+    scene['scale'] = scale
 
 
 def add_hostile_segments(rng, data, model, segm, mask, srcs, margin):
